@@ -60,6 +60,10 @@ def f1(spec, x):
         return x[spec[1]]
     if op == 'fanout':      # for flatten: k tagged copies that stay distinguishable
         return tuple((j, x) for j in range(spec[1]))
+    if op == 'falsy':       # some elements become a falsy value (0 or ()): code must not confuse "empty" with "absent"
+        if weight(x) % spec[1] == spec[2]:
+            return 0 if spec[3] else ()
+        return x
     if op == 'grow':        # feedback template: expands small ints, stops at K
         return (x + 1, x + 2) if x < spec[1] else ()
     if op == 'growback':    # feedback template with links back to ancestors (a crawler meeting a -> b -> a)
